@@ -262,9 +262,30 @@ def offer_def(log, src, base, name, Tj, argsj, rhsj, extra=None):
     log.write(ev)
 
 
-def mode_defs(vec_path, out_path):
+# the hand-written items of DESIGN.md A.5 / B.11, offered verbatim (their shapes are all in the TLC universe as well)
+NAMED = [
+    {'ty': 'def', 'name': 'cbad', 'type': 'bool', 'prop': 'cbad <--> ~cbad'},
+    {'ty': 'def', 'name': 'cpoly', 'type': 'bool', 'prop': "cpoly <--> (!x::'a. !y::'a. x = y)"},
+    {'ty': 'def', 'name': 'cnv', 'type': 'bool => bool', 'prop': 'cnv true <--> false'},
+    {'ty': 'def', 'name': 'cfree', 'type': 'bool', 'prop': 'cfree <--> y'},
+    {'ty': 'def', 'name': 'crep', 'type': 'bool => bool => bool', 'prop': 'crep x x <--> x'},
+    {'ty': 'def', 'name': 'cid', 'type': "'a => 'a", 'prop': 'cid x = x'},
+    {'ty': 'def', 'name': 'csvar', 'type': 'bool', 'prop': 'csvar <--> ?z'},
+    {'ty': 'def', 'name': 'cstv', 'type': 'bool', 'prop': "cstv <--> (!x::?'a. !y. x = y)"},
+    {'ty': 'def', 'name': 'cinst', 'type': 'bool => bool', 'prop': 'cinst x <--> (cinst::bool)'},
+]
+
+
+def mode_defs(vec_path, out_path, named=False):
     base = base_theory()
     log = Log(out_path)
+    if named:
+        for data in NAMED:
+            item = parse_in(copy.copy(base), data)
+            theory.thy = base
+            ev, _ = item_event("named", "named:%s :: %s | %s" % (data['name'], data['type'], data['prop']), item, base,
+                               text=[data['type'], data['prop']])
+            log.write(ev)
     for ln in open(vec_path):
         ln = ln.strip()
         if not ln:
@@ -549,7 +570,7 @@ def mode_library(names, out_path):
 if __name__ == "__main__":
     mode = sys.argv[1]
     if mode == "defs":
-        mode_defs(sys.argv[2], sys.argv[3])
+        mode_defs(sys.argv[2], sys.argv[3], named=len(sys.argv) > 4 and sys.argv[4] == "named")
     elif mode == "rand":
         mode_rand(int(sys.argv[2]), sys.argv[3], int(sys.argv[4]) if len(sys.argv) > 4 else 0)
     elif mode == "gen":
